@@ -6,7 +6,8 @@ import core
 import decsuite as ds
 
 THEOREMS = ["C02.c02_strict", "C02.c02_slices", "C02.c02_structural", "C02.c02_warning", "C02.c02_width",
-            "C02.c02_field", "runWalker_acct", "decode_acct"]
+            "C02.c02_field", "runWalker_acct", "decode_acct",
+            "runWalker_acctw", "C02.c02_warn_value_only"]
 
 
 def run(ctx, replay_case):
@@ -67,5 +68,5 @@ def run(ctx, replay_case):
     })
 
 
-PROP = {"targets": ["TpmProofs.Props.C02"], "module": "TpmProofs.Props.C02", "theorems": THEOREMS, "run": run,
+PROP = {"targets": ["TpmProofs.Props.C08W"], "module": "TpmProofs.Props.C08W", "theorems": THEOREMS, "run": run,
         "assumptions": ["the warn-mode clause (only value warnings) is monitored and tied by correspondence, not yet a theorem"]}
